@@ -155,8 +155,10 @@ func (f *TypedReverseBoltCursor) Next() {
 
 func (f *TypedReverseBoltCursor) Seek(val []byte) {
 	searchVal := PrependFieldType(f.fieldType, val)
-	f.key, _ = f.cursor.Seek(searchVal)
-	if !bytes.Equal(searchVal, f.key) {
+	key, _ := f.cursor.Seek(searchVal)
+	if !bytes.Equal(searchVal, key) {
 		f.Next()
+	} else {
+		f.key = typedCursorKey(key)
 	}
 }
